@@ -55,6 +55,10 @@ claimed = {
    text="Decides from source by interprocedural taint analysis over mailbox and fbb: values controlled by the remote at the handler boundary (Message parameters of ProcessInbound, Proposal parameters of GetInboundAnswer(s), and everything derived: MID(), header values) cannot reach a path operand of any mutating file-system call unless their use is dominated by the pass edge of a confinement check on that very value (predicate refusing '/' - and '\\' in the windows configuration -, filepath.IsLocal, Base). Covers all MID/header strings at once. Does not decide symlinks inside the mailbox or OS-specific name handling; SetSent/SetDeferred identifiers are local and not sources.",
    technique="interprocedural, call-site-sensitive taint analysis on SSA with guard sanitisers recognised through predicate summaries",
    ref="DESIGN.md section 4, C12"),
+ "C15": dict(
+   text="Decides from source: wherever package telnet reads login lines through a bufio.Reader over a connection it then returns, the reader is stored in the returned value and the returned type's own Read reads through it (no byte buffered beyond the login can be lost, for every segmentation); every blocking read of a context-bound dial is dominated by a context-derived watcher/deadline that unblocks it and is not stopped before the last read; the timeout entry points turn the caller's timeout into the context of DialContext (so the dial returns by the deadline whatever the server does or does not send). Does not decide login success for all credentials, prompt recognition, or blocking writes.",
+   technique="ownership/escape analysis of the buffered reader on SSA; dominance of a context watcher over blocking reads; data dependence of the context on the timeout",
+   ref="DESIGN.md section 4, C15"),
 }
 
 not_applicable = {
